@@ -436,6 +436,10 @@ func (self Reflect) create(t reflect.Type, m meta.Meta) reflect.Value {
 		switch x := m.(type) {
 		case *meta.List:
 			keyMeta := x.KeyMeta()
+			if len(keyMeta) != 1 {
+				// a map holds an item under one key value: several key leaves, or none, need a slice
+				return reflect.ValueOf(make([]interface{}, 0))
+			}
 			if len(keyMeta) == 1 {
 				// support some common key types, anything to unusual should have
 				// custom implementation and would default to map[interface{}]interface{}
